@@ -33,6 +33,7 @@ func c15Run(env *core.Env, idx int) core.CaseResult {
 	rng := core.Rng(env.Seed, "C15", idx)
 	g := gen.NewDocGen(rng)
 	g.Refs = true
+	g.XOrder = idx%2 == 0 // extension twins that differ by the case of the prefix only ("x-foo" / "X-foo")
 	g.Density = []float64{1, 1.5, 2.2}[rng.Intn(3)]
 	g.MaxDepth = 3 + rng.Intn(2)
 	doc := g.Swagger(nil)
